@@ -140,6 +140,7 @@ def run_history(ops):
     slots = {}
     slotdoc = {}
     returned = []   # (op index, slot, object, snapshot normal form)
+    scratch = []
     errors = collections.defaultdict(set)
     sink = io.StringIO()
     alone(0)
@@ -148,7 +149,15 @@ def run_history(ops):
             kind, slot = op[0], op[1]
             try:
                 if kind == 'new':
-                    slots[slot] = DznJsonAst(json.dumps(D.to_json(DOCS[op[2]])))
+                    text = json.dumps(D.to_json(DOCS[op[2]]))
+                    if slot % 2 == 1:
+                        # REPRESENTATION: the contents handed over as a mutable buffer that the caller re-uses afterwards
+                        buf = bytearray(text.encode('utf-8'))
+                        slots[slot] = DznJsonAst(buf)
+                        buf[:] = b' ' * len(buf)
+                        scratch.append(buf)
+                    else:
+                        slots[slot] = DznJsonAst(text)
                     slotdoc[slot] = op[2]
                 elif kind in ('load', 'reload'):
                     if kind == 'load' or slot not in slots:
